@@ -157,7 +157,7 @@ class Config:
         lines = ["SPECIFICATION Spec", "CONSTANTS",
                  "  Devs <- G_Devs", "  Pulses <- G_Pulses", "  PF <- G_PF", "  SP <- G_SP",
                  "  CF <- G_CF", "  Calls <- G_Calls", "  InitCalls <- G_InitCalls",
-                 f"  PhaseMod = {self.phase_mod}",
+                 f"  PhaseMod = {self.phase_mod}", f"  PhaseTol = {self.ptol}",
                  f"  MaxDepth = {self.max_depth if depth is None else depth}"]
         for inv in invariants:
             lines.append(f"INVARIANT {inv}")
@@ -308,6 +308,85 @@ def typestate(depth=3):
     return Config("typestate", devs, pulses, calls, [], depth, setpoints=setpoints, cf_max=40)
 
 
+def randsched(seed, depth=3, ncalls=30):
+    """A seeded random scheduler configuration: 2-3 channels with random hardware parameters,
+    3 pulses, a call lattice of about `ncalls` calls.  Exact phase regime (unit 0.5 rad, no wrap)."""
+    import random
+    rng = random.Random(seed)
+    nq = rng.choice([2, 3])
+    nch = rng.choice([2, 3, 3])
+    chs = []
+    for k in range(nch):
+        local = (k == nch - 1 and rng.random() < 0.7) or rng.random() < 0.2
+        clock = rng.choice([1, 1, 2, 4, 4, 8])
+        mind = rng.choice([1, 4, 8, 16])
+        c = {"kind": rng.choice(["ryd", "ryd", "ram"]), "addr": "L" if local else "G",
+             "clock": clock, "minDur": mind,
+             "bw": rng.choice([None, None, 160.0, 80.0, 40.0, 20.0, 8.0]),
+             "maxDur": rng.choice([None, None, None, 400, 120]),
+             "maxAmp": rng.choice([None, 10.0, 2.0]), "maxDet": rng.choice([None, 50.0, 1.0]),
+             "minAvg": rng.choice([0, 0, 0.5])}
+        if c["bw"] is not None:
+            c["cpjt"] = rng.choice([None, None, 0, 20, 200])
+        else:
+            c["cpjt"] = rng.choice([None, None, 20])
+        if local:
+            c["minRet"] = rng.choice([0, 20, 100, 220])
+            c["fixRet"] = rng.choice([0, 0, 8, 10, 300])
+            c["maxTg"] = rng.choice([1, 2, None])
+        chs.append(c)
+    dev = {"nq": nq, "chs": chs, "maxSeq": rng.choice([-1, -1, 150, 308, 640])}
+    def rpulse():
+        dur = rng.choice([5, 8, 16, 24, 52, 100])
+        amp = rng.choice([0.0, 0.5, 1.0, 2.0, 2.5, 10.0])
+        det = rng.choice([0.0, -1.0, 1.0, 1.0000004, 1.0000006, 25.0])
+        ph = rng.choice([0.0, 0.0, 0.5, 1.0])
+        pps = rng.choice([0.0, 0.0, 0.5])
+        kind = rng.choice(["const", "const", "ramp", "blackman", "custom"])
+        if kind == "const":
+            return Pulse.ConstantPulse(dur, amp, det, ph, post_phase_shift=pps)
+        if kind == "ramp":
+            return Pulse(RampWaveform(dur, 0.0, amp), ConstantWaveform(dur, det), ph, post_phase_shift=pps)
+        if kind == "blackman":
+            return Pulse.ConstantDetuning(BlackmanWaveform(max(dur, 8), 0.05 * max(amp, 0.5)), det, ph,
+                                          post_phase_shift=pps)
+        return Pulse(CustomWaveform([amp * (j % 3) / 2 for j in range(dur)]), ConstantWaveform(dur, det), ph,
+                     post_phase_shift=pps)
+    pulses = [rpulse() for _ in range(3)]
+    calls, init = [], []
+    for k in range(nch):
+        it = 0
+        if chs[k]["addr"] == "L":
+            it = rng.choice([1, 1, 2])
+        calls.append({"op": "declare", "nm": k + 1, "cid": k + 1, "it": it})
+        init.append(k + 1)
+    pool = []
+    for k in range(nch):
+        nm = k + 1
+        for p in (1, 2, 3):
+            for proto in ("min-delay", "no-delay", "wait-for-all"):
+                pool.append({"op": "add", "nm": nm, "p": p, "proto": proto})
+        for d in sorted({1, chs[k]["minDur"], 13, 40, 3 * chs[k]["clock"]}):
+            pool.append({"op": "delay", "nm": nm, "d": d, "rest": rng.random() < 0.5})
+        if chs[k]["addr"] == "L":
+            for tg in (1, 2, 3, 1 << nq):
+                pool.append({"op": "target", "nm": nm, "tg": tg})
+        pool.append({"op": "est", "nm": nm, "p": rng.choice([1, 2, 3]),
+                     "proto": rng.choice(["min-delay", "wait-for-all", "no-delay"])})
+    for a in range(1, nch + 1):
+        for b in range(1, nch + 1):
+            if a != b:
+                pool.append({"op": "align", "nms": [a, b], "rest": rng.random() < 0.6})
+    bases = sorted({"ground-rydberg" if c["kind"] == "ryd" else "digital" for c in chs})
+    for b in bases:
+        pool.append({"op": "pshift", "phi": rng.choice([1, 2]), "tg": rng.choice([0, 1, 2]), "basis": b})
+    pool.append({"op": "measure", "basis": bases[0]})
+    rng.shuffle(pool)
+    # keep at least the add calls of a random subset, then fill
+    calls += pool[:max(0, ncalls - len(calls))]
+    return Config(f"rs{seed}", [dev], pulses, calls, init, depth)
+
+
 def instances(name, tier):
     """The configurations of family `name` for a tier (each with a unique .name tag)."""
     quick = tier != "thorough"
@@ -315,6 +394,15 @@ def instances(name, tier):
         c = core(3 if quick else 4)
         c.name = f"core-d{c.max_depth}"
         return [c]
+    if name == "randsched":
+        from .env import seed as _seed
+        base = _seed() * 1000
+        out = []
+        for j in range(3 if quick else 16):
+            c = randsched(base + j, 3)
+            c.name = f"randsched-s{base + j}-d3"
+            out.append(c)
+        return out
     if name == "typestate":
         c = typestate(3 if quick else 4)
         c.name = f"typestate-d{c.max_depth}"
@@ -338,6 +426,11 @@ def instances(name, tier):
 
 def by_tag(tag):
     fam = tag.split("-")[0]
+    if fam == "randsched":
+        sd = int(tag.split("-")[1][1:])
+        c = randsched(sd, int(tag.split("-d")[-1]))
+        c.name = tag
+        return c
     for tier in ("quick", "thorough"):
         for c in instances(fam, tier):
             if c.name == tag:
